@@ -281,6 +281,7 @@ def run_shard(args):
     rng = random.Random(args["seed"])
     base = common.mkscratch("c03")
     w = W.World(base, fe_kind=args["fe"], prefix=args.get("prefix", "/"), seed=args["seed"])
+    w.res = res
     try:
         w.start()
         w.stop()
